@@ -14,7 +14,7 @@ import tempfile
 import time
 
 VERIF = os.path.dirname(os.path.dirname(os.path.abspath(__file__)))
-COQ = os.path.join(VERIF, 'coq')
+COQ = os.environ.get('VERIF_COQ', os.path.join(VERIF, 'coq'))
 THEORIES = os.path.join(COQ, 'theories')
 REPO = os.environ.get('VERIF_REPO', '/repo')
 PYLIB = os.path.join(REPO, 'lib', 'python')
@@ -40,14 +40,28 @@ def scratch():
     return _scratch
 
 
+_lock_depth = 0
+
+
 @contextlib.contextmanager
 def build_lock():
-    path = os.path.join(COQ, '.build.lock')
-    with open(path, 'w') as f:
-        fcntl.flock(f, fcntl.LOCK_EX)
+    """Re-entrant (per process) exclusive lock serialising table regeneration and Coq builds."""
+    global _lock_depth
+    if _lock_depth > 0:
+        _lock_depth += 1
         try:
             yield
         finally:
+            _lock_depth -= 1
+        return
+    path = os.path.join(COQ, '.build.lock')
+    with open(path, 'w') as f:
+        fcntl.flock(f, fcntl.LOCK_EX)
+        _lock_depth = 1
+        try:
+            yield
+        finally:
+            _lock_depth = 0
             fcntl.flock(f, fcntl.LOCK_UN)
 
 
@@ -380,6 +394,117 @@ class Run:
         if exit_code == 0:
             print('OK property=%s tier=%s wall=%.1fs' % (self.pid, self.tier, time.time() - self.t0), flush=True)
         sys.exit(exit_code)
+
+
+def standard_run(pid, tier, seed, spec):
+    """The standard flow shared by most properties.
+
+    spec: dict with
+      model_vos   : list of theories (relative, no extension) the model runner needs, e.g. ['Api/Capacity','Gen/Tables']
+      table_sections : names of translator sections this property depends on
+      preamble, run_fn, in_type : Coq text for the cases files (run_fn : in_type -> list Z)
+      gen_case(rng, i) -> case (JSON-able)
+      impl_run(case) -> obs (JSON-able; what the implementation did)
+      expected(case, obs) -> list of ints: the implementation's observables flattened like the model's run_fn
+                              (return None to skip the case in the correspondence: counted as ambiguous)
+      case_term(case, obs) -> Gallina term of type in_type
+      oracle(case, obs) -> None or (signature, what) or list of those : the property statement on the implementation
+      nontrivial(case, obs) -> bool
+      n_quick, n_thorough, search_quick, search_thorough : case counts
+      corpus : file name under corpus/ (json list of cases) or None
+      rule, trusted, assumptions, anchors
+      extra(run, cases, obs) -> dict merged into coverage (optional)
+    """
+    import random
+    r = Run(pid, tier, seed)
+    rng = random.Random(seed)
+    n = spec.get('n_quick', 300) if tier == 'quick' else spec.get('n_thorough', 10000)
+    with build_lock():
+        terr = regen_tables()
+        for sec, msg in terr:
+            if sec in spec.get('table_sections', ()):
+                r.broken_obligation('tables', 'translator section %s' % sec, msg)
+        okm, logm = make(spec['model_vos'] + ['Base/Flat'])
+        proof = compile_props(pid)
+    if not proof['ok']:
+        r.broken_obligation('proof', proof['failed'] or 'Props/%s.v' % pid, proof['log'])
+    elif not proof['axioms_ok']:
+        r.broken_obligation('proof', 'Print Assumptions: ' + ', '.join(proof['axioms']))
+    bad = grep_forbidden()
+    if bad:
+        r.broken_obligation('proof', 'forbidden vernacular: ' + '; '.join(bad[:5]))
+    cases = []
+    if spec.get('corpus'):
+        path = os.path.join(VERIF, 'corpus', spec['corpus'])
+        if os.path.exists(path):
+            with open(path) as f:
+                cases.extend(json.load(f))
+    ncorpus = len(cases)
+    for i in range(n):
+        cases.append(spec['gen_case'](rng, i))
+    obs = []
+    pairs = []
+    skipped = 0
+
+    def consider(c, o):
+        v = spec['oracle'](c, o)
+        if v:
+            for sig, what in ([v] if isinstance(v, tuple) else v):
+                r.violation(sig, what, c, {'impl_observed': o})
+            return True
+        return False
+    for c in cases:
+        o = spec['impl_run'](c)
+        obs.append(o)
+        consider(c, o)
+        e = spec['expected'](c, o)
+        if e is None:
+            skipped += 1
+            pairs.append(None)
+        else:
+            pairs.append((spec['case_term'](c, o), gallina_zlist(e)))
+    live = [(i, p) for i, p in enumerate(pairs) if p is not None]
+    if not okm:
+        mism, err = [], 'model does not build: ' + logm[-1200:]
+    else:
+        mism, err = run_mismatches(spec['preamble'], spec['run_fn'], [p for _i, p in live], spec['in_type'],
+                                   shard=spec.get('shard', 300))
+        mism = [live[j][0] for j in mism]
+    if err:
+        r.broken_obligation('correspondence', '%s: the model could not be evaluated' % pid, err)
+    if mism:
+        smallest = min(mism, key=lambda i: len(json.dumps(cases[i], default=str)))
+        mo, _e = model_output(spec['preamble'], spec['run_fn'], pairs[smallest][0])
+        r.broken_obligation('correspondence',
+                            '%s model vs implementation: %d of %d cases differ' % (pid, len(mism), len(live)),
+                            json.dumps({'case': cases[smallest], 'impl_observed': obs[smallest],
+                                        'impl_flat': spec['expected'](cases[smallest], obs[smallest]),
+                                        'model_flat': mo}, default=str))
+    if r.broken and not r.violations:
+        rng2 = random.Random(seed + 1)
+        extra = spec.get('search_quick', 3000) if tier == 'quick' else spec.get('search_thorough', 50000)
+        t_end = time.time() + (120 if tier == 'quick' else 1200)
+        for i in range(extra):
+            c = spec['gen_case'](rng2, i)
+            o = spec['impl_run'](c)
+            consider(c, o)
+            if len(r.violations) > 20 or time.time() > t_end:
+                break
+    nt = [c for c, o in zip(cases, obs) if spec['nontrivial'](c, o)]
+    cov = {
+        'evaluations': len(cases), 'distinct_nontrivial': distinct_count(nt), 'rule': spec['rule'],
+        'samples': cases[ncorpus:ncorpus + 2] if len(cases) > ncorpus + 1 else cases[:2],
+        'corpus_cases': ncorpus, 'correspondence_cases': len(live), 'correspondence_mismatches': len(mism),
+        'ambiguous_skipped': skipped, 'source_sha256': source_hashes(spec.get('anchors', [])),
+    }
+    if spec.get('extra'):
+        cov.update(spec['extra'](r, cases, obs))
+    r.finish(proof, coverage=cov, trusted_base=spec['trusted'], assumptions=spec['assumptions'])
+
+
+def gallina_zlist(ns):
+    from . import gallina
+    return gallina.zlist(ns)
 
 
 def distinct_count(items):
